@@ -343,3 +343,75 @@ def total(sel, tracer, lo=0, hi=None):
         ):
             out.append((xe["i"], rec))
     return out
+
+
+def total_focus(sel, tracer, lo=0, hi=None):
+    """A *focused* selector forced to total mode: one record per binding of the
+    focus variable (per way the chain matches), published when the outermost
+    matched call ends, each sharing the complete values of the outer captures.
+    Returns [(exit index of the outermost call, record)] in publication order."""
+    trace = tracer.events
+    hi = len(trace) if hi is None else hi
+    acts = tracer.acts
+    levels = sel["levels"]
+    level_fns = [lv["fn"] for lv in levels]
+    focus = sel["focus"]
+    fas = focus.get("as") or focus["var"]
+    binds = []
+    for ev in trace[:hi]:
+        for var, val in event_vars(ev):
+            binds.append((ev["i"], ev["act"], ev["fn"], var, val, ev["stack"]))
+    exits = {ev["act"]: ev["i"] for ev in trace[:hi] if ev["k"] == "exit"}
+    out = []
+    for (bi, bact, bfn, bvar, bval, stack) in binds:
+        if bfn != level_fns[-1] or bvar != focus["var"]:
+            continue
+        stack_fns = [acts[a].fn for a in stack]
+        for emb in _embeddings(level_fns, stack_fns):
+            R = stack[emb[0]]
+            xi = exits.get(R)
+            if xi is None or xi < lo or xi >= hi:
+                continue
+            rec = {fas: [bval]}
+            for j, idx in enumerate(emb):
+                A = stack[idx]
+                lv = levels[j]
+                for cap in lv.get("caps", []):
+                    vals = [v for (i2, a2, f2, v2, v, _s) in binds if a2 == A and v2 == cap["var"] and i2 <= xi]
+                    rec.setdefault(cap.get("as") or cap["var"], []).extend(vals)
+                for sb in lv.get("sibs", []):
+                    for cap in sb["caps"]:
+                        vals = [v for (i2, a2, f2, v2, v, _s) in binds
+                                if f2 == sb["fn"] and v2 == cap["var"] and A in acts[a2].anc and i2 <= xi]
+                        rec.setdefault(cap.get("as") or cap["var"], []).extend(vals)
+            names = set(capture_names(sel))
+            if all(rec.get(n) for n in names):
+                out.append((xi, bi, rec))
+    out.sort(key=lambda t: (t[0], t[1]))
+    return [(xi, rec) for xi, _bi, rec in out]
+
+
+def wrapper(sel, tracer, lo=0, hi=None):
+    """The wrapper form f(!#enter, #error, !!#exit): a 'begin' event when an
+    activation of f starts and an 'end' event when it ends -- however it ends --
+    carrying the exception if it ended by raising."""
+    trace = tracer.events
+    hi = len(trace) if hi is None else hi
+    fn = sel["levels"][-1]["fn"]
+    errs = {}
+    out = []
+    for ev in trace[:hi]:
+        if ev["fn"] != fn:
+            continue
+        if ev["k"] == "error":
+            errs[ev["act"]] = ev["val"]
+        if ev["i"] < lo:
+            continue
+        if ev["k"] == "enter":
+            out.append((ev["i"], {"#enter": True, "$wrap": {"name": "#enter", "step": "begin"}}))
+        elif ev["k"] == "exit":
+            d = {"#enter": True, "#exit": True, "$wrap": {"name": "#enter", "step": "end"}}
+            if ev["act"] in errs:
+                d["#error"] = errs[ev["act"]]
+            out.append((ev["i"], d))
+    return out
